@@ -505,7 +505,13 @@ func (s *scheduler) lock(i *interpreter, mv value, write bool) {
 	s.tick()
 	s.yield(i, "lock")
 	if write {
-		s.block(i, func() bool { return ls.writer || ls.readers > 0 }, "Lock")
+		if ls.writer || ls.readers > 0 {
+			ls.waitingWriters++
+			i.logUndo(func() { ls.waitingWriters-- })
+			s.block(i, func() bool { return ls.writer || ls.readers > 0 }, "Lock")
+			ls.waitingWriters--
+			i.logUndo(func() { ls.waitingWriters++ })
+		}
 		ls.writer = true
 		ls.owner = s.cur.id
 		i.logUndo(func() { ls.writer = false })
@@ -513,7 +519,7 @@ func (s *scheduler) lock(i *interpreter, mv value, write bool) {
 		s.cur.vc.join(m.w)
 		s.cur.vc.join(m.r)
 	} else {
-		s.block(i, func() bool { return ls.writer }, "RLock")
+		s.block(i, func() bool { return ls.writer || ls.waitingWriters > 0 }, "RLock")
 		ls.readers++
 		i.logUndo(func() { ls.readers-- })
 		s.cur.vc.join(s.mvcOf(p).w)
